@@ -17,7 +17,8 @@ def main(argv=None):
     C10.run(ck, framing_only=True, finish=False)
     # 2. parser / receivers: delimitation, decision table, close-after-message
     res = world.run_functions(ck, MODS, FUNCS, timeout=20 if ck.tier == "quick" else 60, hooks_mod="contracts.parser")
-    world.report(ck, res, select=lambda n: any(k in n for k in KEEP))
+    from vlib.modelreplay import make_replayer
+    world.report(ck, res, select=lambda n: any(k in n for k in KEEP), replayer=make_replayer(ck, MODS))
     # 3. the close decision reaches the response (task) and the leftover loop (channel)
     res2 = taskworld.run(ck, ["task.Task.build_response_header"])
     world.report(ck, res2, select=lambda n: "C01-" in n or "must-close" in n or "coverage" in n)
